@@ -5,12 +5,16 @@ import asyncio
 import itertools
 import multiprocessing as mp
 import random
+import shutil
+import tempfile
+from datetime import UTC, datetime
+from pathlib import Path
 
 from common import setup_repo_import
-from vloop import Stall, vrun
+from vloop import Stall, patch_aiosqlite, vrun
 
 ID = "C09"
-GENS = []
+GENS = ["c09_calls"]
 PROOF = "Gallia.Proofs.C09"
 DRIVER = "c09"
 ORACLE = False
@@ -179,8 +183,26 @@ def _load_impl():
         async def insert_session_transition(self, destination, steps):
             self.rows.append((int(destination), [int(x) for x in steps]))
 
+    from gallia.db.handler import DBHandler
+
+    class RecDB(DBHandler):
+        """the real DBHandler on a real sqlite file, remembering the session_transition rows this run writes"""
+
+        def __init__(self, path):
+            super().__init__(path)
+            self.rows = []
+            self.lookups = 0
+
+        async def insert_session_transition(self, destination, steps):
+            self.rows.append((int(destination), [int(x) for x in steps]))
+            await super().insert_session_transition(destination, steps)
+
+        async def get_session_transition(self, destination):
+            self.lookups += 1
+            return await super().get_session_transition(destination)
+
     _impl.update(SessionsScanner=SessionsScanner, SessionsScannerConfig=SessionsScannerConfig, ECU=ECU, HookedECU=HookedECU,
-                 GraphTransport=GraphTransport, VecuTransport=VecuTransport, TargetURI=TargetURI, DBStub=DBStub)
+                 GraphTransport=GraphTransport, VecuTransport=VecuTransport, TargetURI=TargetURI, DBStub=DBStub, RecDB=RecDB)
     return _impl
 
 
@@ -223,21 +245,41 @@ def parse_edges(case):
     return {(int(k.split(">")[0]), int(k.split(">")[1])): v for k, v in case["g"].items()}
 
 
-def run_impl(case):
-    """run the real scanner on one case -> canonical observation"""
+class _MetaCfg:
+    def model_dump_json(self):
+        return "{}"
+
+
+DB_TARGET = "graph://ecu"
+
+
+def run_impl(case, dbfile=None):
+    """run the real scanner on one case -> canonical observation.
+    `case["db_history"]` (a list of cases): the scan runs with a real database (sqlite file) into which the scans of the
+    history have been run before, against the same target - as a user does who scans the same ECU a second time."""
     m = _load_impl()
+    if case.get("db_history") is not None and dbfile is None:
+        patch_aiosqlite()
+        td = tempfile.mkdtemp(prefix="verif-c09-", dir="/var/tmp")
+        try:
+            path = td + "/scan.sqlite"
+            for h in case["db_history"]:
+                run_impl({k: v for k, v in h.items() if k != "db_history"}, dbfile=path)
+            return run_impl(case, dbfile=path)
+        finally:
+            shutil.rmtree(td, ignore_errors=True)
     cfg = m["SessionsScannerConfig"].model_construct(
         depth=case["depth"], sleep=0, skip=list(case["skip"]), with_hooks=bool(case["hooks"]),
         reset=case["reset"], thorough=bool(case["thorough"]), timeout=2.0 + case.get("boot", 0), db=None)
     sc = m["SessionsScanner"].__new__(m["SessionsScanner"])
     sc.config = cfg
     sc.result = []
-    sc.db_handler = m["DBStub"]()
+    sc.db_handler = m["DBStub"]() if dbfile is None else m["RecDB"](Path(dbfile))
     if "vecu" in case:
         tr = m["VecuTransport"](m["TargetURI"]("vecu://ecu"), make_vecu(*case["vecu"]))
     else:
         gh = None if case.get("gh") is None else {(int(k.split(">")[0]), int(k.split(">")[1])): v for k, v in case["gh"].items()}
-        tr = m["GraphTransport"](m["TargetURI"]("graph://ecu"), parse_edges(case), case["rst"], gh,
+        tr = m["GraphTransport"](m["TargetURI"](DB_TARGET), parse_edges(case), case["rst"], gh,
                                  case.get("pre", ()), case.get("post", ()), case.get("boot", 0))
     if case.get("pre") or case.get("post"):
         sc.ecu = m["HookedECU"](tr, timeout=2.0, max_retry=case["max_retry"])
@@ -255,11 +297,30 @@ def run_impl(case):
             tr.in_recover = False
 
     sc._recover_stack = recover
+
+    async def runner():
+        db = sc.db_handler
+        if dbfile is not None:
+            # what UDSScanner.setup does with --db: connect, one run_meta / scan_run row for this target, the ECU object
+            # shares the handler (the exchange log itself is C11's subject and switched off here)
+            await db.connect()
+            await db.insert_run_meta("verif-c09", _MetaCfg(), datetime.now(UTC).astimezone(), None)
+            await db.insert_scan_run(DB_TARGET)
+            sc.ecu.db_handler = db
+            sc.ecu.implicit_logging = False
+        try:
+            try:
+                await sc.main()
+                return "0"
+            except SystemExit as e:
+                return str(e.code)
+        finally:
+            if dbfile is not None:
+                await db.disconnect()
+
     status = "0"
     try:
-        vrun(sc.main())
-    except SystemExit as e:
-        status = str(e.code)
+        status, _ = vrun(runner())
     except Stall as e:
         status = "stall"
     except TooManyRequests:
@@ -275,6 +336,7 @@ def run_impl(case):
         "recover_flags": [bool(r) for _, _, r in tr.log],
         "client_session": int(sc.ecu.state.session),
         "ecu_session": tr.cur,
+        "db_lookups": getattr(sc.db_handler, "lookups", 0),
     }
 
 
@@ -412,6 +474,9 @@ def judge(case, impl, model, spec):
     # --- the tie: model vs implementation ------------------------------------------------------------------
     if model["track"] != "1":
         out.append(("model-state-tracking", "model probes outside the stack top", False))
+    if impl.get("db_lookups"):
+        out.append(("tie:db-consulted", f"the scan looked up stored session transitions {impl['db_lookups']} times; the model's "
+                                        "set_session calls carry use_db=False", False))
     for f, mf in (("exit", "exit"), ("result", "result"), ("rows", "rows"), ("reqs", "reqs"), ("ecu_session", "cur"), ("client_session", "cur")):
         if impl[f] != model[mf]:
             if f == "reqs":
@@ -628,9 +693,12 @@ def shrink(ctx, case, cls):
             cands.append({**cur, "depth": d})
         for x in cur["skip"]:
             cands.append({**cur, "skip": [y for y in cur["skip"] if y != x]})
+        if cur.get("db_history"):
+            cands.append({**cur, "db_history": cur["db_history"][:-1]})
+            cands.append({**cur, "db_history": cur["db_history"][1:]})
         for k in sorted(cur["g"], key=lambda k: tuple(map(int, k.split(">")))):
-            if "vecu" in cur:
-                break  # the graph belongs to the vECU seed
+            if "vecu" in cur or cur.get("db_history"):
+                break  # the graph belongs to the vECU seed / is shared with the scans of the history
             cands.append({**cur, "g": {a: b for a, b in cur["g"].items() if a != k}})
         for c in cands:
             budget -= 1
@@ -647,8 +715,40 @@ def case_key(case):
     if "vecu" in case:
         return (f"vecu={case['vecu'][0]}/{case['vecu'][1]};d={case['depth']};skip={_csv(case['skip'])};"
                 f"th={int(case['thorough'])};hk={int(case['hooks'])};mr={case['max_retry']}")
+    hist = ""
+    if case.get("db_history") is not None:
+        hist = ";db=" + ("fresh" if not case["db_history"] else "|".join(
+            f"d{h['depth']},skip={_csv(h['skip'])},th={int(h['thorough'])},hk={int(h['hooks'])}" for h in case["db_history"]))
     return (f"d={case['depth']};skip={_csv(case['skip'])};th={int(case['thorough'])};rs={case['reset']};"
-            f"hk={int(case['hooks'])};mr={case['max_retry']};rst={case['rst']};g={_edges_str(case)}" + _hook_fields(case).replace(" ", ";"))
+            f"hk={int(case['hooks'])};mr={case['max_retry']};rst={case['rst']};g={_edges_str(case)}"
+            + _hook_fields(case).replace(" ", ";") + hist)
+
+
+def db_sequence(rng):
+    """the same ECU scanned two or three times into one database with different depth / skip / thorough: every scan is a
+    case of its own whose `db_history` lists the scans that filled the database before it"""
+    shape = rng.choice(["chain", "chain", "deep-only", "density", "islands"])
+    g, ids = rand_graph(rng, shape)
+    g = decorate(rng, g, ids, True)
+    gh, pre, post = None, (), ()
+    if rng.random() < 0.25:
+        g, gh, pre, post = hook_class(rng, g, ids)
+    common = dict(max_retry=rng.choice([0, 0, 1]), rst="p", gh=gh, pre=pre, post=post)
+    scans = [mk_case(g, rng.choice([3, 4, 5]), [], hooks=bool(pre) or rng.random() < 0.2, **common)]
+    for _ in range(rng.randint(1, 2)):
+        kind = rng.random()
+        depth = rng.choice([1, 1, 2, 2, 3])
+        skip = []
+        if kind < 0.5 and len(ids) > 2:
+            skip = rng.sample(ids[1:], rng.randint(1, min(2, len(ids) - 1)))
+        scans.append(mk_case(g, depth, skip, thorough=rng.random() < 0.2, hooks=rng.random() < 0.3,
+                             reset=rng.choice([None, None, 1]), **common))
+    out = []
+    for i, c in enumerate(scans):
+        if c["thorough"] and n_walks(c, 40) > 40:
+            c["thorough"] = False
+        out.append({**c, "db_history": [dict(h) for h in scans[:i]]})
+    return out, "db:" + shape
 
 
 GENERIC = ("skipped-session-requested:default-session:stack-recovery",)
@@ -712,6 +812,13 @@ def run(ctx):
         if c["thorough"] and n_walks(c, 40) > 40:
             c["thorough"] = False
         add(c, "vecu:RandomUDSServer")
+
+    # 4. the same target scanned repeatedly into one real database (sqlite file): the scanner must not let earlier results
+    #    steer a later scan (the model does not consult the database)
+    for _ in range(ctx.pick(28, 220)):
+        seq, label = db_sequence(rng)
+        for n, c in enumerate(seq):
+            add(c, f"{label}:scan-{n + 1}")
 
     impls, models, specs = evaluate(ctx, cases, procs)
     seen_cls = {}
